@@ -148,6 +148,10 @@ def gen_ctor(g, gn, asserts=False):
             X = corr.gen_elem(g, gd, True); q = g.unit4() if g.r.random() < 0.5 else g.nonunit4()
             if gn == "SE3" and g.r.random() < 0.4: cid = 11; args = [X, lin(3)]
             else: cid = 10; args = [X, q]
+    # construction from a view / assignment of raw data (every group): valid and non-unit coefficients
+    if g.r.random() < 0.3:
+        cid = g.r.choice([20, 21, 22, 23, 24])
+        args = [corr.gen_elem(g, gd, g.r.random() < 0.5)]
     g.note("ctor:%s:%d" % (gn, cid))
     return dict(group=gn, op="Ctor", mask=mask, iarg=cid, flt=0, args=args)
 corr.CUSTOM_GEN["Ctor"] = gen_ctor
